@@ -49,8 +49,9 @@ theorem pcr_meets_spec : ∀ prep commit rb c, specPcr prep commit rb (pcr prep 
 it runs (in which order, with which context and flag) is the table entry for the outcomes the
 bodies produced -/
 theorem lifts_to_arbitrary_bodies {σ : Type} (cond : Body σ) (thn : Option (Body σ)) (rb : Option (Bool → Body σ)) (s : σ) :
-    (txnM cond thn rb s).1 = (txn (outcomeOf (cond .txn s).1) (thenOutcome cond thn rb s) (rbOutcome rb) .never).ret :=
-  txnM_ret_eq_table cond thn rb s
+    let t := txn (outcomeOf (cond .txn s).1) (thenOutcome cond thn rb s) (rbOutcome rb) .never
+    (txnM cond thn rb s).1 = t.ret ∧ (txnM cond thn rb s).2.1 = t.calls.map invOf :=
+  txnM_eq_table cond thn rb s
 
 example : (txn .ok (.present .fail) (.present .ok) .duringThen).calls.length = 3 := by decide
 
